@@ -321,6 +321,9 @@ def _install_rawdict_methods():
                 if present is None or args[0] in present:
                     return alg.sym("raw.%s.%s" % (b.attrs["__rawdict__"], args[0]))
                 return args[1] if len(args) > 1 else kwargs.get("default")
+            if name == "get" and args and (isinstance(args[0], bool) or args[0] is None or (isinstance(args[0], Expr) and args[0].as_const() is not None)):
+                # the sections of a configuration file are keyed by names: a key that is not a string is never present
+                return args[1] if len(args) > 1 else kwargs.get("default")
         return orig(I, f, args, kwargs, node)
 
     npsem.method = method
